@@ -11,8 +11,9 @@ from pbt.common import Result, cut
 ID = "C05"
 LEVEL = "exploration"
 TOL = {"rel": 1e-10}
-RULE = ("N in 2..7; sparsity pattern = bitmask over the N(N-1)/2 pairs: ALL patterns enumerated for N<=5 (quick) / "
-        "N<=6 (thorough) with deterministic pseudo-values, plus Hypothesis-generated (pattern, values of either sign "
+RULE = ("N in 2..9; sparsity pattern = bitmask over the N(N-1)/2 pairs: ALL patterns enumerated for N<=5 (quick) / "
+        "N<=6 (thorough) with deterministic pseudo-values, plus Hypothesis-generated (pattern - uniformly random, or sparse with "
+        "1..N+1 couplings on 6-9 atoms, or structured -, values of either sign "
         "over 6 decades, Rydberg/XY, dim 2/3, omega/delta/phi incl. zeros, arbitrary complex dim x dim noise term, "
         "second in-place update_H with fresh drives); oracle: harness einsum contraction of the MPO factors vs numpy "
         "kron-built H; non-trivial = >=1 non-zero pair; distinct = (N, pattern, type, dim)")
@@ -64,11 +65,17 @@ def _drv():
 
 @st.composite
 def _cases(draw):
-    n = draw(st.sampled_from([2, 3, 4, 5, 6, 6, 7, 7]))
+    style = draw(st.sampled_from(["random", "random", "sparse", "sparse", "nn", "full", "star", "empty_half"]))
+    n = draw(st.sampled_from([6, 6, 7, 7, 8, 9])) if style == "sparse" else draw(st.sampled_from([2, 3, 4, 5, 6, 6, 7, 7]))
     npairs = n * (n - 1) // 2
-    style = draw(st.sampled_from(["random", "random", "nn", "full", "star", "empty_half"]))
     if style == "random":
         pattern = draw(st.integers(0, (1 << npairs) - 1))
+    elif style == "sparse":
+        # a few couplings only (1 .. n+1 pairs) on 6-9 atoms: interaction channels that open and close at different
+        # sites of the left and right halves, which uniformly random patterns (density 1/2) rarely isolate
+        pattern = 0
+        for b in draw(st.lists(st.integers(0, npairs - 1), min_size=1, max_size=n + 1, unique=True)):
+            pattern |= 1 << b
     elif style == "full":
         pattern = (1 << npairs) - 1
     else:
@@ -77,7 +84,7 @@ def _cases(draw):
             if (style == "nn" and j == i + 1) or (style == "star" and (i == 0 or j == n - 1)) or \
                     (style == "empty_half" and i >= n // 2):
                 pattern |= 1 << b
-    dim = 2 if n == 7 else draw(st.sampled_from([2, 3]))  # 3^7 dense matrices are too slow to be worth it
+    dim = 2 if n >= 7 else draw(st.sampled_from([2, 3]))  # 3^7 dense matrices are too slow to be worth it
     cplx = st.tuples(st.floats(-2, 2), st.floats(-2, 2)).map(lambda t: [round(t[0], 6), round(t[1], 6)])
     noise_s = st.one_of(st.just([[[0.0, 0.0]] * dim] * dim), st.lists(st.lists(cplx, min_size=dim, max_size=dim), min_size=dim, max_size=dim))
     lst = lambda s: st.lists(s, min_size=n, max_size=n)  # noqa: E731
